@@ -673,7 +673,12 @@ pub fn preprocess_str<T: AsRef<Path>, U: AsRef<Path>, V: BuildHasher>(
                             resolve_depth + 1,
                             include_depth,
                         )? {
-                            let p = p.trim().trim_matches('"');
+                            let p = p.trim();
+                            let p = if p.starts_with('<') {
+                                p.trim_start_matches('<').trim_end_matches('>')
+                            } else {
+                                p.trim_matches('"')
+                            };
                             PathBuf::from(p)
                         } else {
                             PathBuf::from("")
